@@ -142,6 +142,8 @@ func c05(c *Ctx) {
 	c.After("checkpoint/shm-rewritten", ck, twal, call("updateSHM"), nil, 1, "after the WAL is truncated every success exit rewrites the SHM header", "SQLite readers would index frames that no longer exist")
 	c.After("checkpoint/walchksums-reset", ck, twal, p.Writes("litefs.DB.wal.chksums"), nil, 1, "after the WAL is truncated the WAL page-checksum overlay is cleared", "C04: checksums of frames that no longer exist would override the database's")
 	c.ckptCopiesAll("checkpoint")
+	c.EdgeReturns("checkpoint/missing-database-is-skipped", ck, GP("os.IsNotExist(litefs.OS.OpenFile(p0.os, @@DatabasePath@@)#1)", true), "nil", 1,
+		"a WAL without a database file (left by a connection opened before a drop) is not an error: the checkpoint is skipped", "recovery runs the checkpoint at every start: a WAL created after a drop would make every later start fail (the journal twin of this was F46)")
 	c.ExpectAll("checkpoint/truncate-arg", c.CallArgs(ck, twal, 2), "0", 1, "the WAL is truncated to zero", "")
 	c.ErrHandled("checkpoint/errors", ck, p.PlainCalls("litefs.(*DB).readWALPageOffsets", "litefs.(*DB).writeDatabasePage", "litefs.(*DB).truncateDatabase", "litefs.(*DB).TruncateWAL", "litefs.(*DB).updateSHM", "io.ReadFull", "os.(*File).Seek"), nil, 7,
 		"every step of CheckpointNoLock propagates its error", "a failed page copy followed by WAL truncation loses the page")
@@ -191,6 +193,8 @@ func (c *Ctx) rollbackFamily(prefix string) {
 	trunc := call("truncateDatabase")
 	seg := call("rollbackJournalSegment")
 	rmJournal := c.osCall("Remove", "litefs.(*DB).JournalPath(p0)")
+	c.Expect(prefix+"/valid-means-header-read", strings.Join(c.returnsOf("litefs.(*JournalReader).IsValid"), ";"), pat("p0.isValid"),
+		"JournalReader.IsValid reports exactly whether a journal header was read - nothing about the size it holds", "a journal of the first transaction of a database records size 0: rollback must still resize the file to it, or the uncommitted pages stay")
 	c.Guarded(prefix+"/truncate-valid-only", rb, trunc, gs(GP("litefs.(*JournalReader).IsValid(@@)", true)), 1,
 		"the database is resized only when a valid journal header was read", "resizing to a zero/garbage size destroys the database")
 	{
